@@ -422,6 +422,17 @@ def resolve(model: RefDir, op):
                         'items': items, 'k': d['k'], 'nums': d['nums'] or [],
                         'spell': d['spell'] or 0, 'expect': 'reject',
                         'bad': 'wrong_dimension', 'near_miss': True}
+        if kind == 'wrong_dim_term' and r[9] % 3 == 1:
+            # a term whose units cancel (km/m, 12 * s**2 / s**2): it denotes
+            # a plain number, no unit of any type
+            us = model.types[tn]['units']
+            u1, u2 = _pick(us, r[1]), _pick(us, r[2])
+            e = [1, 2, 1][r[3] % 3]
+            return {'a': 'term_unit', 'type': tn,
+                    'sym': fresh_symbol(model, 'u', n, deco),
+                    'items': [[u1, e], [u2, -e]], 'k': None, 'nums': nums,
+                    'spell': r[11] % 4, 'expect': 'reject',
+                    'bad': 'wrong_dimension', 'cancels': True}
         if kind == 'wrong_dim_term':
             others = [x for x in model.types_with_ref() if x != tn]
             target = _pick(others, r[8])
